@@ -2,6 +2,7 @@ package core
 
 import (
 	"go/ast"
+	"go/constant"
 	"go/token"
 	"go/types"
 	"strings"
@@ -646,4 +647,14 @@ func Nillable(t types.Type) bool {
 		return true
 	}
 	return false
+}
+
+// IsIntConst: v is the integer constant n.
+func IsIntConst(v ssa.Value, n int64) bool {
+	c, ok := v.(*ssa.Const)
+	if !ok || c.Value == nil || c.Value.Kind() != constant.Int {
+		return false
+	}
+	x, exact := constant.Int64Val(c.Value)
+	return exact && x == n
 }
